@@ -38,6 +38,15 @@ PROPS_PART = {
         cex={
             'rdata.prepare_to_read_rdata': [('rdata', 'cex_read_any_cursor_total')],
         },
+        native=[dict(bin='bnd_rdata', when='quick',
+                     bound='91 class/type pairs (the 20 known ones, class-specific types in 7 classes, unknown types); validate: 18964 RDATA strings = all strings of <= 4 octets '
+                           'over {0,1,2,3,4,3f,40,c0,ff} + exemplars of every layout (13 name shapes incl. 63/64-octet labels and 255/256-octet names, character strings of 0/1/255 octets '
+                           'and overlong, option lists, 12 TSIG shapes, 65535-octet TXT and OPT) each truncated at every length and extended by one octet; read: 1212 RDATA regions '
+                           '(24 name shapes incl. pointers backwards/into a label/forwards/to itself/cut off, expansions to 255 and 256 octets) in a message with two earlier names x 3 continuations '
+                           'x 6-10 cursor/RDLENGTH choices (exact, +-1, +-2, 0, 2, 6, shifted cursor), plus 5 messages x 21 cursors up to usize::MAX x 14 RDLENGTHs up to 65535 (5.1M cases)',
+                     what='public Rdata::validate vs the RFC field layouts (bounded/src/wire_ref.rs): same verdict; public Rdata::read: no panic for any cursor/RDLENGTH, Err when the RDATA is not '
+                          'inside the message, Ok only with RDATA the reference and validate accept, result equal to the reference reader (octets as they are / names decompressed; '
+                          'refusing a compressed SRV target tolerated); error kinds not compared; write->read round trip not covered')],
         unverified=['Rdata::read body is not under a Verus contract (local `type` items, fn-pointer typed closures, Cow<Rdata>): its routing is covered by the bounded Kani harnesses '
                     'bnd_read_routing / bnd_read_dispatch, its callees by Verus; the composition "read == read_spec" for all message lengths is therefore argued, not machine-checked in one piece',
                     'write -> read round trip through the compressing Writer (with or without compression): planned as a bounded Kani harness, not done',
